@@ -241,57 +241,72 @@ def r2(F, R):
     R.floor(4)
 
 
-def r3(F, R):
-    # Retries::next_try closure: Retries { current: self.current + 1, left }
+def next_try_semantics(F):
+    """Retries::next_try on its deep path table: (body, some_iff_left_positive, fields_ok, why)."""
     nt = [b for b in F.crate_bodies() if b.impl and b.impl.get("self_adt") == "event::Retries" and not b.impl.get("trait")
           and b.locals[0] == "std::option::Option<event::Retries>" and b.arg_count == 1]
     if len(nt) != 1:
-        raise Unverifiable("Retries::next_try")
+        raise Unverifiable(f"Retries::next_try role: {len(nt)}")
     b = nt[0]
-    cs = [(s, t) for s, t in b.calls(lambda t: callee_is(t, r"checked_sub$"))]
-    maps = [(s, t) for s, t in b.calls(lambda t: callee_is(t, r"Option::<.*>::map$"))]
-    ok = len(cs) == 1 and len(maps) == 1 and const_int(cs[0][1]["args"][1]) == 1
-    R.check(ok, "next-try/left-minus-one", b, "left.checked_sub(1).map(..)", "Retries::next_try is not left.checked_sub(1).map(..)")
-    if ok:
-        msl = A.slice_back(b, [maps[0][1]["args"][0]])
-        R.check(any(s == cs[0][0] for s, _ in msl.calls), "next-try/map-on-checked-sub", maps[0][0], "", "map is not applied to the checked_sub result")
-        kb = A.closure_of_operand(F, b, maps[0][1]["args"][1])
-        okk = False
-        if kb is not None:
-            aggs = [(s, st) for s, st in kb.assigns(lambda st: st["rv"]["k"] == "agg" and st["rv"].get("adt") == "event::Retries")]
-            if len(aggs) == 1:
-                rv = aggs[0][1]["rv"]
-                fields = dict(zip(rv["fields"], rv["ops"]))
-                lsl = A.slice_back(kb, [fields["left"]])
-                csl = A.slice_back(kb, [fields["current"]])
-                left_ok = 2 in lsl.params and not lsl.bins
-                cur_ok = len(csl.bins) == 1 and csl.bins[0][1]["op"] in ("Add", "AddWithOverflow") and const_int(csl.bins[0][1]["b"]) == 1 and csl.upvars
-                okk = left_ok and bool(cur_ok)
-        R.check(okk, "next-try/fields", kb or b, "Retries { current: current + 1, left: left - 1 }", "the next attempt's counters are not (current+1, left-1)")
+    flds = {f["name"]: i for i, f in enumerate(F.adts[("cucumber", "event::Retries")]["variants"][0]["fields"])}
+    L, C = ("field", ("arg", 1), flds["left"]), ("field", ("arg", 1), flds["current"])
+    rows = D.Deep(F, b, max_paths=50).run()
+    iff, fields_ok, why = bool(rows), True, ""
+    seen = set()
+    for p in rows:
+        z = [o for a, o in p.conds if a == ("bin", "Eq", L, ("const", 0))]
+        if p.cut or len(z) != 1:
+            iff, why = False, "the result does not depend on `left == 0` alone"
+            continue
+        is_some = D.is_variant(p.ret, "std::option::Option", "Some")
+        seen.add(is_some)
+        if is_some == z[0]:
+            iff, why = False, f"with left {'==' if z[0] else '>'} 0 the result is {'Some' if is_some else 'None'}"
+        if is_some:
+            r = p.ret[3][0]
+            okf = D.is_variant(r, "event::Retries") and r[3][flds["left"]] == ("bin", "Sub", L, ("const", 1)) and r[3][flds["current"]] == ("bin", "Add", C, ("const", 1))
+            if not okf:
+                fields_ok = False
+    return b, iff and seen == {True, False}, fields_ok, why
+
+
+def r3(F, R):
+    b, iff, fields_ok, why = next_try_semantics(F)
+    R.check(iff, "next-try/left-minus-one", b, "Some iff left > 0 (left.checked_sub(1))", "Retries::next_try is not `Some exactly when a retry is left`" + (": " + why if why else ""))
+    R.check(iff, "next-try/map-on-checked-sub", b, "", "Retries::next_try can be Some although left == 0")
+    R.check(fields_ok, "next-try/fields", b, "Retries { current: current + 1, left: left - 1 }", "the next attempt's counters are not (current+1, left-1)")
     ini = [b2 for b2 in F.crate_bodies() if b2.impl and b2.impl.get("self_adt") == "event::Retries" and not b2.impl.get("trait")
            and b2.locals[0] == "event::Retries" and b2.arg_count == 1 and b2.locals[1] == "usize"]
     R.check(len(ini) == 1, "initial/found", None, "", f"Retries::initial candidates: {len(ini)}")
     if len(ini) == 1:
-        aggs = [(s, st) for s, st in ini[0].assigns(lambda st: st["rv"]["k"] == "agg" and st["rv"].get("adt") == "event::Retries")]
-        okk = False
-        if len(aggs) == 1:
-            rv = aggs[0][1]["rv"]
-            fields = dict(zip(rv["fields"], rv["ops"]))
-            okk = const_int(fields["current"]) == 0 and 1 in A.slice_back(ini[0], [fields["left"]]).params and not A.slice_back(ini[0], [fields["left"]]).bins
+        flds = {f["name"]: i for i, f in enumerate(F.adts[("cucumber", "event::Retries")]["variants"][0]["fields"])}
+        rows = D.Deep(F, ini[0], max_paths=20).run()
+        okk = len(rows) == 1 and D.is_variant(rows[0].ret, "event::Retries") and rows[0].ret[3][flds["current"]] == ("const", 0) and rows[0].ret[3][flds["left"]] == ("arg", 1)
         R.check(okk, "initial/fields", ini[0], "Retries { current: 0, left: n }", "Retries::initial does not start at current=0, left=n")
-    # RetryOptions::next_try keeps `after`
+    # RetryOptions::next_try: the budget step of its `retries`, `after` carried over unchanged
     ro = [b2 for b2 in F.crate_bodies() if b2.impl and b2.impl.get("self_adt") == "runner::basic::RetryOptions" and not b2.impl.get("trait")
           and b2.locals[0] == "std::option::Option<runner::basic::RetryOptions>" and b2.arg_count == 1]
     R.check(len(ro) == 1, "options-next-try/found", None, "", f"RetryOptions::next_try candidates: {len(ro)}")
     if len(ro) == 1:
-        okk = False
-        for nb in F.nested(ro[0]):
-            for s, st in nb.assigns(lambda st: st["rv"]["k"] == "agg" and st["rv"].get("adt") == "runner::basic::RetryOptions"):
-                fields = dict(zip(st["rv"]["fields"], st["rv"]["ops"]))
-                asl = A.deep_slice(F, nb, [fields["after"]])
-                rsl = A.slice_back(nb, [fields["retries"]])
-                okk = ("runner::basic::RetryOptions", "after") in asl.fields and not asl.calls and 2 in rsl.params
-        R.check(okk, "options-next-try/keeps-after", ro[0], "RetryOptions { retries: next, after: self.after }", "RetryOptions::next_try does not carry `after` over")
+        of = {f["name"]: i for i, f in enumerate(F.adts[("cucumber", "runner::basic::RetryOptions")]["variants"][0]["fields"])}
+        SR, SA = ("field", ("arg", 1), of["retries"]), ("field", ("arg", 1), of["after"])
+        rows = D.Deep(F, ro[0], max_paths=50, opaque="^" + re.escape(b.name) + "$").run()
+        okk, n_some = bool(rows), 0
+        for p in rows:
+            calls = [("call", e[1], e[2], e[4]) for e in p.effects if e[0] == "call" and e[1] == b.name]
+            if len(calls) != 1 or calls[0][2] != (SR,):
+                okk = False
+                continue
+            out = [o for a, o in p.conds if a == ("discr", calls[0])]
+            is_some = D.is_variant(p.ret, "std::option::Option", "Some")
+            if out != ["Some" if is_some else "None"]:
+                okk = False
+            if is_some:
+                n_some += 1
+                r = p.ret[3][0]
+                okk = okk and D.is_variant(r, "runner::basic::RetryOptions") and r[3][of["after"]] == SA and r[3][of["retries"]] == ("field", ("as", calls[0], "Some"), 0)
+        R.check(okk and n_some >= 1, "options-next-try/keeps-after", ro[0], "RetryOptions { retries: retries.next_try()?, after: self.after }",
+                "RetryOptions::next_try does not step its own `retries` budget and carry `after` over")
     R.floor(6)
 
 
@@ -313,28 +328,32 @@ def _depends_on_site(F, body, op, site, bodies, depth=0):
 
 def r4(F, R):
     _, _, enq = role_enqueue(F)
-    # with_deadline / without_deadline roles: fns building RetryOptionsWithDeadline
+    # with_deadline / without_deadline roles, by signature: inherent methods of RetryOptions returning RetryOptionsWithDeadline,
+    # with / without an Instant parameter
     WD = "runner::basic::RetryOptionsWithDeadline"
-    builders = {}
-    for b, s, st in roles.builders_of(F, WD, "RetryOptionsWithDeadline"):
-        root = F.root_fn(b)
-        builders.setdefault(root.key, root)
-    with_d, without_d = None, None
-    for root in builders.values():
-        if root.arg_count == 2 and root.locals[2] == "std::time::Instant":
-            with_d = root
-        elif root.arg_count == 1 and root.locals[0] == WD and root.impl and not root.impl.get("trait"):
-            without_d = root
-    if with_d is None or without_d is None:
+    RO_ = "runner::basic::RetryOptions"
+    cands = [x for x in F.crate_bodies() if x.impl and x.impl.get("self_adt") == RO_ and not x.impl.get("trait") and x.kind == "AssocFn" and x.locals[0] == WD]
+    with_d = [x for x in cands if x.arg_count == 2 and x.locals[1] == RO_ and x.locals[2] == "std::time::Instant"]
+    without_d = [x for x in cands if x.arg_count == 1 and x.locals[1] == RO_]
+    if len(with_d) != 1 or len(without_d) != 1:
         raise Unverifiable("with_deadline / without_deadline roles")
-    # with_deadline stamps Some(now); without_deadline stamps None
+    with_d, without_d = with_d[0], without_d[0]
+
     def stamp(root):
-        vs = set()
-        for nb in F.nested(root):
-            for s, st in nb.assigns(lambda st: st["rv"]["k"] == "agg" and st["rv"].get("adt") == "std::option::Option"):
-                if nb.locals[st["pl"]["l"]] == "std::option::Option<std::time::Instant>":
-                    vs.add(st["rv"]["variant"])
-        return vs
+        """On the routine's path table (helpers inlined): the set of stamps it puts next to the delay — 'now' (Some(<its Instant
+        parameter>)), 'None', or '?'."""
+        out = set()
+        for p in D.Deep(F, root, max_paths=50).run():
+            for x in D.subterms(p.ret):
+                if x[0] == "tuple" and len(x[1]) == 2 and D.is_variant(x[1][1], "std::option::Option"):
+                    st_ = x[1][1]
+                    if st_[2] == "None":
+                        out.add("None")
+                    elif st_[3] == (("arg", 2),):
+                        out.add("Some")
+                    else:
+                        out.add("?")
+        return out
     R.check(stamp(with_d) == {"Some"}, "with-deadline-stamps-now", with_d, "after.map(|at| (at, Some(now)))", f"with_deadline stamps {sorted(stamp(with_d))}")
     R.check(stamp(without_d) == {"None"}, "without-deadline-stamps-none", without_d, "after.map(|at| (at, None))", f"without_deadline stamps {sorted(stamp(without_d))}")
     # routing in ENQUEUE
